@@ -10,7 +10,8 @@ import json, os, re, shutil, subprocess, sys, time, hashlib, atexit, signal
 VERIF = os.path.dirname(os.path.dirname(os.path.abspath(__file__)))
 SPEC = os.path.join(VERIF, "spec")
 HARNESS = os.path.join(VERIF, "harness")
-BIN = os.path.join(HARNESS, "target", "debug")
+BUILT_BIN = os.path.join(HARNESS, "target", "debug")   # where cargo puts the harness binaries
+BIN = None                                            # this process's private copies (set below, filled by build())
 EVID = os.path.join(VERIF, "evidence")
 OUT = os.path.join(VERIF, "out")
 REPO = "/repo"
@@ -34,6 +35,9 @@ def scratch():
     return _scratch
 
 
+BIN = os.path.join(scratch(), "bin")
+
+
 def seed():
     try:
         return int(os.environ.get("VERIF_SEED", "1"))
@@ -51,10 +55,22 @@ def log(*a):
 _built = False
 
 
+def _take_private_copies():
+    """Copy the freshly built harness binaries into this process's scratch directory (called with the build lock
+    held).  Checks started concurrently share one cargo target directory; each relinks the binaries, and executing a
+    file while another process's linker or cargo's uplift writes it fails with ETXTBSY.  Private copies taken under
+    the lock are never written again."""
+    os.makedirs(BIN, exist_ok=True)
+    for f in os.listdir(BUILT_BIN):
+        src = os.path.join(BUILT_BIN, f)
+        if os.path.isfile(src) and os.access(src, os.X_OK) and "." not in f:
+            shutil.copy2(src, os.path.join(BIN, f))
+
+
 def build(bins=None):
     """cargo build the harness against /repo's current working tree."""
     global _built
-    if _built or os.environ.get("VERIF_NO_BUILD") == "1":
+    if _built:
         return
     t0 = time.time()
     env = dict(os.environ)
@@ -65,10 +81,12 @@ def build(bins=None):
     os.makedirs(os.path.join(HARNESS, "target"), exist_ok=True)
     with open(os.path.join(HARNESS, "target", ".verif.lock"), "w") as lk:
         fcntl.flock(lk, fcntl.LOCK_EX)
-        p = subprocess.run(cmd, cwd=HARNESS, env=env, stdout=subprocess.PIPE, stderr=subprocess.STDOUT, text=True)
-    if p.returncode != 0:
-        log(p.stdout[-6000:])
-        raise ToolError("harness build failed")
+        if os.environ.get("VERIF_NO_BUILD") != "1":
+            p = subprocess.run(cmd, cwd=HARNESS, env=env, stdout=subprocess.PIPE, stderr=subprocess.STDOUT, text=True)
+            if p.returncode != 0:
+                log(p.stdout[-6000:])
+                raise ToolError("harness build failed")
+        _take_private_copies()
     _built = True
     log("[build] %.1fs" % (time.time() - t0))
 
@@ -261,6 +279,11 @@ class Check:
     def drift(self, msg):
         print("MODEL-DRIFT: property=%s %s" % (self.pid, msg), flush=True)
         self.cov["model_drift"].append(msg)
+
+    def note(self, msg):
+        """an observation outside the property (neither a violation nor a disagreement between model and code)"""
+        print("NOTE: property=%s %s" % (self.pid, msg), flush=True)
+        self.cov.setdefault("notes", []).append(msg)
 
     def violation(self, replay_obj, what, finding_key=None):
         """Record a violation unless it matches a listed known finding (by `finding_key`)."""
